@@ -6,7 +6,7 @@
 use crate::calls::{apply, run_all, Handling};
 use crate::gen::{self, Gen, Profile, *};
 use crate::hist::{esc, Call, History};
-use crate::logical::{logical, resize_relation, rewrap_relation, txt};
+use crate::logical::{logical, resize_relation_w, rewrap_relation, txt};
 use crate::model::term::{MLine, MPen};
 use crate::mon::callmon::c02_after;
 use crate::report::Report;
@@ -242,7 +242,7 @@ pub fn c10_history(h: &History, rep: &mut Report) {
                 drop(vt.resize(*c, *rw));
                 let a = logical(&vt, false);
                 rep.count("resizes_checked", 1);
-                if let Some(d) = resize_relation(&b, &a) {
+                if let Some(d) = resize_relation_w(&b, &a, *c == oc) {
                     return Some((
                         i + 1,
                         format!(
